@@ -685,10 +685,10 @@ func checkGate(c gateCase) error {
 	np := strings.Count(c.Prefix, "\n")
 	var body string
 	wantErr := true
-	wantRecs := -1     // exact number of records, -1 = not asserted exactly
-	maxOpens := -1     // upper bound on Open calls
-	forbidden := ""    // owner prefix that must not appear
-	wantOpens := -1    // exact
+	wantRecs := -1  // exact number of records, -1 = not asserted exactly
+	maxOpens := -1  // upper bound on Open calls
+	forbidden := "" // owner prefix that must not appear
+	wantOpens := -1 // exact
 	switch c.Kind {
 	case "self":
 		body = "$INCLUDE self.db\n"
@@ -725,9 +725,11 @@ func checkGate(c gateCase) error {
 		body = "$INCLUDE " + canary() + "\n"
 		wantRecs, wantOpens, forbidden = np, 0, "canary."
 	case "via-generate-not-allowed":
-		cfg.Allowed = false
-		body = "$GENERATE 1-2 $$INCLUDE inc1\n"
-		wantRecs, wantOpens, forbidden = np, 0, "i1."
+		// the file is a real one: the sub-parser of a $GENERATE has no include FS, so only a
+		// real file shows whether the gate holds there
+		cfg.Allowed, cfg.UseFS = false, c.Allowed
+		body = "$GENERATE 1-2 $$INCLUDE " + canary() + "\n"
+		wantRecs, wantOpens, forbidden = np, 0, "canary."
 	case "nested-generate":
 		cfg.Allowed = c.Allowed
 		body = "$GENERATE 1-2 $$GENERATE 1-2 inner$ A 10.0.0.$\n"
@@ -746,8 +748,8 @@ func checkGate(c gateCase) error {
 		// a $GENERATE that expands to $INCLUDE of a chain, includes allowed but no FS for the
 		// sub-parser: only the depth accounting and the gate are asserted via the safety oracle
 		cfg.Allowed = false
-		body = fmt.Sprintf("$GENERATE 1-1 $$INCLUDE chain%d.db\n", 11-c.Depth)
-		wantRecs, wantOpens, forbidden = np, 0, "chain"
+		body = fmt.Sprintf("$GENERATE 1-1 $$INCLUDE chain%d.db\n$INCLUDE %s\n", 11-c.Depth, canary())
+		wantRecs, wantOpens, forbidden = np, 0, "c"
 	default:
 		pbt.Note(nil, false, "invalid-case")
 		return nil
@@ -755,7 +757,9 @@ func checkGate(c gateCase) error {
 	files["top.db"] = c.Prefix + body + c.Suffix
 	out, viol := runParser(files, cfg, nil)
 	pbt.Note(caseKey(files, cfg), true, "gate:"+c.Kind, fmt.Sprintf("gate:%s/err=%v", c.Kind, out.Err != nil))
-	ctx := func() string { return fmt.Sprintf("kind=%s opens=%q err=%v records=%d\n%s", c.Kind, out.Opens, out.Err, out.N, show(map[string]string{"top.db": files["top.db"]}, cfg)) }
+	ctx := func() string {
+		return fmt.Sprintf("kind=%s opens=%q err=%v records=%d\n%s", c.Kind, out.Opens, out.Err, out.N, show(map[string]string{"top.db": files["top.db"]}, cfg))
+	}
 	if viol != nil {
 		return pbt.Errf("%v\n%s", viol, ctx())
 	}
